@@ -165,6 +165,19 @@ static void build_pools() {
         "\xe5\xbe\xae\xe5\x8d\x9a.\xe5\xbe\xae\xe5\x8d\x9a",                    // 微博.微博
         "\xd0\xbd\xd0\xb5\xd1\x82.\xd0\xbe\xd1\x84", "\xff\xfe.com", "\xc3.com", "a\xcc\x81.com", "\xcc\x81" "a.com",
         "fa\xc3\x9f.de", "\xe2\x80\x8d.com", "a.\xd1\x80\xd1\x84.", "\xd0\xb8.\xd0\xb8", "x." + string(70, 'b') + ".org" };
+    {   // U-label spellings whose converted form is an interesting ASCII name: alternative label separators (U+3002, U+FF0E,
+        // U+FF61 all map to '.'), full-width letters, ignorable characters (soft hyphen, ZWNJ is contextual) - a check made
+        // on the caller's spelling instead of on the converted name behaves differently exactly here
+        const char *names[] = { "example.com", "sub.example.net", "example.org", "x.test", "foo.invalid", "localhost", "a.onion", "mail.ru", "iana.org", "host.museum", "host.aero", "nic.arpa" };
+        const char *dots[] = { "\xe3\x80\x82", "\xef\xbc\x8e", "\xef\xbd\xa1" };
+        for (auto nm : names) {
+            string n = nm;
+            for (auto d : dots) { string v = n; size_t p = v.rfind('.'); if (p != string::npos) { v.replace(p, 1, d); doms.push_back(v); } }
+            { string v = n; unsigned char c = (unsigned char)v[0]; if (c >= 'a' && c <= 'z') { char fw[4] = { (char)0xef, (char)0xbd, (char)(0x81 + (c - 'a')), 0 }; v.replace(0, 1, fw); doms.push_back(v); } }
+            { string v = n; v.insert(v.size() / 2, "\xc2\xad"); doms.push_back(v); }
+            { string v = n; for (auto &ch : v) if (ch >= 'a' && ch <= 'z' && (&ch - &v[0]) % 2 == 0) ch = (char)(ch - 32); doms.push_back(v); }
+        }
+    }
     {   // a > 253 octet domain and an exactly-253 one
         string d; while (d.size() < 250) d += "abcdefghi.";
         doms.push_back(d + "com"); doms.push_back(d.substr(0, 240) + "abcdefghi.com");
@@ -205,6 +218,22 @@ static void build_pools() {
         if (li < 12 || (j + li) % 7 == 0) G.gen.push_back(l + "@" + doms[j]);
     }
     G.gen.push_back(""); G.gen.push_back("@"); G.gen.push_back("noat"); G.gen.push_back("a@"); G.gen.push_back("@b.com");
+    // sizes around every internal limit and far beyond: 64/65 local, 253..256 domain, DOMAIN_SIZE (1024), a page, 64 KiB
+    {
+        static const size_t LENS[] = { 300, 1000, 1023, 1024, 1025, 1026, 1100, 2047, 2048, 2049, 4096, 8192, 65535, 65536, 70000 };
+        for (size_t n : LENS) {
+            string dom; while (dom.size() + 12 < n) dom += "abcdefghij."; dom += "com";
+            G.gen.push_back("user@" + dom);
+            G.gen.push_back("\xd0\xb8@" + dom);
+            G.gen.push_back(string(n > 20 ? n - 12 : 8, 'a') + "@example.org");
+            string ud; while (ud.size() + 20 < n) ud += "\xd0\xbf\xd0\xbe\xd1\x87\xd1\x82\xd0\xb0."; ud += "\xd1\x80\xd1\x84";
+            if (n <= 8192) G.gen.push_back("u@" + ud);
+        }
+    }
+    // rooted (trailing dot) spellings of ordinary, special and IDN domains
+    for (auto nm : { "example.com.", "sub.example.net.", "mail.ru.", "iana.org.", "x.test.", "localhost.", "a.onion.", "host.museum.", "\xd0\xbf\xd0\xbe\xd1\x87\xd1\x82\xd0\xb0.\xd1\x80\xd1\x84.", "example.com..", "com." }) {
+        G.gen.push_back(string("user@") + nm); G.conv.push_back(string("user@") + nm);
+    }
     for (auto &d : doms) {
         if (d.empty() || d[0] == '[' || d.find('@') != string::npos) continue;
         G.domains.push_back(d);
@@ -293,7 +322,13 @@ static Plan gen_history(const string &prop, const string &cfg, uint64_t seed, lo
     unsigned tot = 0; for (unsigned x : wt) tot += x;
     unsigned p_invalid = (unsigned)sim_below(&w, 30);
     bool faults = (cfg == "fault" || cfg == "lockstep-fault" || cfg == "ctxfault");
-    unsigned frate = faults ? 2 + (unsigned)sim_below(&f, 59) : 0;       // percent of IS_EMAIL ops
+    // C13/C18 model a *deterministic* converter: in a given plan the conversion of a given address either always works
+    // or always fails with one code and one buffer behaviour ("in this world that domain does not convert").  The outcome
+    // is then still a function of (mode, tld_check, allow_tld, address), which is what these properties are about;
+    // transient failures - the same address failing once and working later - belong to C19.
+    unsigned frate = faults ? 2 + (unsigned)sim_below(&f, 59) : 0;       // percent of pool addresses that do not convert
+    std::map<string, Op> world;
+    if (frate) for (auto &a : pool) if (!world.count(a)) { Op w0; if (sim_below(&f, 100) < frate) draw_fault(f, w0); world[a] = w0; }
     unsigned sfrate = (cfg == "ctxfault") ? 5 + (unsigned)sim_below(&f, 50) : 0;
     // most objects start by confirming a mode, so that work happens
     for (int o = 0; o < p.nobj; o++) {
@@ -315,7 +350,7 @@ static Plan gen_history(const string &prop, const string &cfg, uint64_t seed, lo
         case SET_TLD: op.v = (long long)sim_below(&w, 2); break;
         case SET_ALLOW: op.v = draw_allow(w); break;
         case SETUP: if (sfrate && sim_below(&f, 100) < sfrate) op.sf = 1 + (int)sim_below(&f, 2); break;
-        case IS_EMAIL: op.a = pick(w, pool); if (frate && sim_below(&f, 100) < frate) draw_fault(f, op); break;
+        case IS_EMAIL: op.a = pick(w, pool); if (frate) { const Op &w0 = world[op.a]; op.f_on = w0.f_on; op.f_code = w0.f_code; op.f_buf = w0.f_buf; } break;
         default: break;
         }
         p.ops.push_back(op);
@@ -411,7 +446,10 @@ static Plan gen_small(const string &prop, uint64_t seed, long long index) {
         else if (sym < 17) { op.k = IS_EMAIL; op.a = addr[sym - 11]; }
         else if (sym == 17) op.k = ERRSTR;
         else if (sym == 18) op.k = FREE_INIT;
-        else { op.k = IS_EMAIL; op.a = addr[sym == 19 ? 1 : 2]; op.f_on = true; op.f_code = sym == 19 ? -100 : -304; op.f_buf = sym == 19 ? 1 : 0; }
+        else {  // two further addresses whose conversion always fails in this world (never used unfaulted)
+            op.k = IS_EMAIL; op.a = sym == 19 ? "u@\xd1\x84\xd0\xb0\xd0\xb9\xd0\xbb.\xd1\x80\xd1\x84" : "\xd0\xb8@\xd0\xbc\xd0\xb8\xd1\x80.\xd1\x80\xd1\x84";
+            op.f_on = true; op.f_code = sym == 19 ? -100 : -304; op.f_buf = sym == 19 ? 1 : 0;
+        }
         p.ops.push_back(op);
     }
     return p;
@@ -843,9 +881,9 @@ struct Exec {
             string why;
             if (!o.same(it->second, why)) {
                 viol("C13:outcome-differs-from-fresh-object", "eav_is_email('" + op.a + "') on the reused object differs from a fresh object with the same settings in " + why + ": reused {" + o.str() + "} fresh {" + it->second.str() + "}");
-            } else if (o.conv_fired != it->second.conv_fired) {
-                viol("harness:fault-fired-differently", "attached fault fired on one of reused/fresh only");
             }
+            // (whether the converter was actually consulted may legitimately differ between the reused and the fresh object:
+            //  a per-object memo that answers a repeated address without converting again is not a violation)
             if (o.conv_fired) check_containment("eav_is_email", op, 1, o);
             check_ledger_obj(op.o, "after eav_is_email", prev_blocks);
             m.has_last = true; m.last = o; m.failed_setup_since = false; m.last_class = outcome_class(o);
